@@ -354,8 +354,10 @@ def run(prop, tier):
                 continue
             layout = Layout(CONFIGS[cfgname])
             mstates, E = build_graph(ctx, scratch, layout, cfgname)
-            td = emusrv.System(layout.spec).write(scratch.sub("trace-" + cfgname))
+            system = emusrv.System(layout.spec)
+            td = system.write(scratch.sub("trace-" + cfgname))
             pool = ServerPool(exe, td, ["-l"])
+            pool.meta = system.meta if "system" in dir() else None
             try:
                 # the row layout computed from the specification must be the one the emulator uses
                 sidx = {}
